@@ -42,11 +42,12 @@ package wire
 //@ chaninv[C06] message.Request: imp(keyed(ch), reqid(v) == chkey(ch)) && v != nil
 //@ chanopen[C06] message.Request: keyed(ch)
 //@ lockinv[C06] ClientConn.mu: self.replyCh != nil && forall(id, uint32, imp(has(self.replyCh, id), keyed(self.replyCh[id]) && chkey(self.replyCh[id]) == id))
+//@ lockinv[C06,C15] ClientConn.mu: forall(id, uint32, imp(has(self.replyCh, id), cap(self.replyCh[id]) >= 1))   // every registered reply channel has a free slot for its single reply
 //@ typeassume ClientConn: !keyed(self.msgRequestCh)
 //@ typeassume ClientConn: !ackKeyed(self.msgUpstreamCallAckCh) && !replyKeyed(self.msgDownstreamCallCh)   // inbox queues are not keyed reply channels (C16)
 
 //@ func (*ClientConn).sendRequest
-//@   props C06
+//@   props C06 C15
 //@   nopanic
 //@   requires req != nil && c.transport != nil && c.ctx != nil && ctx != nil
 //@   makechan 1 assume keyed(ch) && chkey(ch) == reqid(req)
@@ -54,8 +55,9 @@ package wire
 //@   ensures imp(result1 == nil, result0 != nil && reqid(result0) == reqid(req))
 
 //@ func (*ClientConn).readRequestLoop
-//@   props C06
+//@   props C06 C15
 //@   nopanic
+//@   assert send: cap(ch) >= 1   // the reply dispatcher (which also delivers pongs) cannot block on an abandoned request
 //@   assert send: !has(c.replyCh, reqid(v)) && unheld(c.mu)   // one delivery per registration (the 1-slot reply channel cannot block the dispatcher), never under the lock
 
 //@ func (*ClientConn).readReliableLoop
